@@ -205,6 +205,7 @@ def target_variant(impl: str, test: str, admittance: bool, cap: bool, ind: bool)
                                           sorted(type(e).__name__ for e in result.get_elements()) == sorted(type(e).__name__ for e in gen.get_elements())), 0, label="O3:same-structure")
         for s_ in sorted(set(O.CTX.side)):
             sess.assumptions.append(s_)
+        kk.check_exact(sess, ns)
     return (f"{module}:_test_wrapper[{name}]", module, "_test_wrapper", run)
 
 
